@@ -25,9 +25,9 @@ type Mutant struct {
 	New    string   `json:"new,omitempty"`
 	Edits  []Edit   `json:"edits,omitempty"`
 	Rename []Edit   `json:"rename,omitempty"` // old -> new in every non-test .go file of the root package (all occurrences)
-	Patch  string   `json:"patch,omitempty"` // path relative to /verif
-	Expect []string `json:"expect"`          // properties that must report a violation ([] for benign)
-	Rules  []string `json:"rules,omitempty"` // rules expected to fire (informational)
+	Patch  string   `json:"patch,omitempty"`  // path relative to /verif
+	Expect []string `json:"expect"`           // properties that must report a violation ([] for benign)
+	Rules  []string `json:"rules,omitempty"`  // rules expected to fire (informational)
 	Benign bool     `json:"benign,omitempty"`
 	Note   string   `json:"note,omitempty"`
 	Tests  string   `json:"tests,omitempty"` // whether the baseline suite notices (measured or expected)
@@ -77,6 +77,14 @@ func loadMutants(verif string) ([]Mutant, error) {
 		exp := []string{meta.Property}
 		rel, _ := filepath.Rel(verif, filepath.Join(dir, "patch.diff"))
 		out = append(out, Mutant{ID: "seeded/" + filepath.Base(dir), Patch: rel, Expect: exp, Note: meta.Needs})
+	}
+	// benign_seeded/<id>/patch.diff: behaviour-preserving refactorings written by independent sub-agents
+	// (each reviewed by me); every check must stay silent on them
+	bens, _ := filepath.Glob(filepath.Join(verif, "benign_seeded", "*", "patch.diff"))
+	sort.Strings(bens)
+	for _, b := range bens {
+		rel, _ := filepath.Rel(verif, b)
+		out = append(out, Mutant{ID: "benign-seeded/" + filepath.Base(filepath.Dir(b)), Patch: rel, Benign: true, Expect: []string{}})
 	}
 	return out, nil
 }
